@@ -165,7 +165,7 @@ class Check:
                 t = dict(s); t["id"] = k + 1; local.append(t)
             fn = os.path.join(WORK, "%s-%s-%d-%s.json" % (self.prop, name, os.getpid(), ci))
             with open(fn, "w") as f:
-                json.dump(local, f)
+                json.dump(tlc.enc_json(local), f)
             try:
                 r = tlc.run(spec, cfg, env={"SCN_FILE": fn}, tag="%s-%s-%d-%s" % (self.prop, name, os.getpid(), ci), workers=w,
                             timeout=max(60, tmo // (2 ** depth)))
